@@ -169,7 +169,8 @@ type sched struct {
 	cfg   Config
 	req   chan request
 	join  sync.WaitGroup
-	tasks []*Task
+	tasks []*Task // every task of the run (for reports)
+	alive []*Task // tasks that have not exited yet, in creation order
 	live  int
 	chans map[unsafe.Pointer]*chanState
 	wgs   map[unsafe.Pointer]*int64
@@ -274,6 +275,7 @@ func (s *sched) newTask(role string, parent int) *Task {
 	// PCT priority: random, distinct with overwhelming probability
 	t.prio = int64(s.rnd()>>2) | 1<<61
 	s.tasks = append(s.tasks, t)
+	s.alive = append(s.alive, t)
 	s.live++
 	if s.live > s.res.Stats.MaxLive {
 		s.res.Stats.MaxLive = s.live
@@ -283,7 +285,21 @@ func (s *sched) newTask(role string, parent int) *Task {
 	return t
 }
 
+// retire removes an exited task from the list that the scheduler scans
+//
 //go:norace
+//go:norace
+func (s *sched) retire(t *Task) {
+	for i, o := range s.alive {
+		if o == t {
+			copy(s.alive[i:], s.alive[i+1:])
+			s.alive[len(s.alive)-1] = nil
+			s.alive = s.alive[:len(s.alive)-1]
+			return
+		}
+	}
+}
+
 func (s *sched) chanOf(c any) *chanState {
 	p := chanPtr(c)
 	if p == nil {
@@ -311,7 +327,7 @@ func (s *sched) chanByPtr(p unsafe.Pointer) *chanState {
 //go:norace
 func (s *sched) partners(t *Task, p unsafe.Pointer, wantRecv bool) []*Task {
 	s.candB = s.candB[:0]
-	for _, o := range s.tasks {
+	for _, o := range s.alive {
 		if o == t || o.st != stBlocked {
 			continue
 		}
@@ -480,7 +496,7 @@ func Run(cfg Config, root func()) *Result {
 func (s *sched) end(reason string) {
 	s.ended = true
 	s.res.End = reason
-	for _, t := range s.tasks {
+	for _, t := range s.alive {
 		if t.st == stDone {
 			continue
 		}
@@ -504,7 +520,7 @@ func (s *sched) end(reason string) {
 
 //go:norace
 func (s *sched) teardown() {
-	for _, t := range s.tasks {
+	for _, t := range append([]*Task(nil), s.alive...) {
 		if t.st == stDone {
 			continue
 		}
@@ -608,6 +624,7 @@ func (s *sched) loop() {
 			t.st = stDone
 			t.op = opNone
 			s.live--
+			s.retire(t)
 			s.mix(int64(t.ID), 107)
 			s.logf("t%d exit", t.ID)
 			if t == s.root {
@@ -616,7 +633,7 @@ func (s *sched) loop() {
 				s.res.Stats.RootDoneAtT = simNow
 				s.res.Stats.RootDoneAtD = s.res.Stats.Decisions
 				s.res.Stats.LiveAtRootDn = s.live
-				for _, o := range s.tasks {
+				for _, o := range s.alive {
 					o.usedAtRoot = o.used
 				}
 			}
@@ -624,6 +641,7 @@ func (s *sched) loop() {
 			t.st = stDone
 			t.op = opNone
 			s.live--
+			s.retire(t)
 			s.res.Panic = &PanicInfo{Role: t.Role, Ordinal: t.Ordinal, Value: r.pv, Stack: r.stack}
 			s.res.Stats.PanicOnRole = t.Role
 			s.logf("t%d PANIC %s", t.ID, r.pv)
@@ -685,7 +703,7 @@ func (s *sched) loop() {
 
 //go:norace
 func (s *sched) hasWaiter(cs *chanState) bool {
-	for _, t := range s.tasks {
+	for _, t := range s.alive {
 		if t.st != stBlocked {
 			continue
 		}
@@ -758,7 +776,7 @@ func (s *sched) schedule() {
 		if s.last != nil && s.last.st != stDone && s.enabled(s.last) {
 			en = append(en, s.last)
 		}
-		for _, t := range s.tasks {
+		for _, t := range s.alive {
 			if t != s.last && t.st != stDone && t.st != stRunning && s.enabled(t) {
 				en = append(en, t)
 			}
